@@ -23,7 +23,7 @@ ASSUMPTIONS = ['monotonicity tolerance 1e-12 relative on the inverse ratios; "un
                'fibre OSNR_ASE means 1e-12 relative, for passive elements and attenuations bit-identical',
                'Raman fibres (which add both ASE and NLI) are only required to be non-improving']
 REQUIRED_COUNTERS = {'stock_tests_run': 5, 'stock_element_events': 500, 'element_events': 60, 'passive_identity_checks': 20, 'amplifier_checks': 20, 'fiber_checks': 20,
-                     'attenuation_ops': 100, 'con_out_differentials': 5}
+                     'attenuation_ops': 100, 'con_out_differentials': 5, 'raman_pump_order_runs': 2}
 CASE_TIMEOUT = {'quick': 400, 'thorough': 1800}
 
 
@@ -154,6 +154,28 @@ def raman_single_pump_differential(ctx, e):
                 return
 
 
+def raman_pump_order_differential(ctx, e):
+    """The pumps of a Raman span are a set: the same crossing with the pump list reversed gives the same channels.  (A
+    noise term attributed to the wrong pump would still look like "more noise" to the monotonicity check.)"""
+    el = e['el']
+    pumps = tuple(getattr(el, 'raman_pumps', ()))
+    if e['after'] is None or len(pumps) < 2:
+        return
+    el1 = deepcopy(el)
+    el1.raman_pumps = tuple(reversed(pumps))
+    out = attach.Snap(el1(si_from_snap(e['before'])))
+    ref = attach.Snap(deepcopy(el)(si_from_snap(e['before'])))
+    ctx.count('raman_pump_order_runs')
+    for name, a, b in (('total power', ref.pch, out.pch), ('ASE power', ref.pch * ref.ar, out.pch * out.ar),
+                       ('NLI power', ref.pch * ref.nr, out.pch * out.nr)):
+        if a.shape != b.shape or np.any(np.abs(a - b) > 1e-9 * np.maximum(np.abs(a), np.abs(b)) + 1e-30):
+            k = int(np.argmax(np.abs(a - b)))
+            ctx.violation('raman-pump-order', f'RamanFiber {el.uid}: {name} of channel {ref.frequency[k]:.6e} Hz depends on '
+                          f'the order in which the pumps are listed: {a[k]:.6e} W vs {b[k]:.6e} W with the list reversed',
+                          {'pumps': [(p.frequency, p.power, p.propagation_direction) for p in pumps]})
+            return
+
+
 def run_case(case, ctx):
     if case['kind'] == 'stock':
         return stock.run_stock_case(case, ctx, ID)
@@ -173,6 +195,8 @@ def run_case(case, ctx):
         for e in events:
             if e['type'] == 'RamanFiber' and scen['raman'] and not ctx.violations:
                 raman_single_pump_differential(ctx, e)
+                if not ctx.violations:
+                    raman_pump_order_differential(ctx, e)
         fibers = [e for e in events if e['type'] == 'Fiber']
         if fibers and not scen['raman']:
             con_out_differential(ctx, fibers[rng.randrange(len(fibers))])
